@@ -109,6 +109,8 @@ func (x *zzExec) pass(m *zzMW, p zzPassRef, ex *zzExport) []byte {
 			return ex.Pass
 		}
 		return zzFreshPass(0)
+	case pCurPlus:
+		return append(append([]byte{}, x.pass(m, zzPassRef{pCurPriv, 0}, nil)...), 'Z', 'z')
 	}
 	return nil
 }
